@@ -332,6 +332,10 @@ bool Terminal::Impl::executeRunHistoryCmd(SessionContext *s, const Args &args)
 {
     string sub_cmd = args[0].substr(1);
     if (sub_cmd == "!") {
+        if (s->history.empty()) {
+            s->wp_conn->send(s->token, "Error: no history.\r\n");
+            return false;
+        }
         s->curr_input = s->history.back();
         return execute(s);
     }
@@ -345,8 +349,10 @@ bool Terminal::Impl::executeRunHistoryCmd(SessionContext *s, const Args &args)
                 is_index_valid = true;
             }
         } else {
-            if (s->history.size() >= static_cast<size_t>(-index)) {
-                s->curr_input = s->history.at(s->history.size() + index);
+            //! negate in 64 bits: -INT_MIN does not fit an int
+            auto back_index = static_cast<size_t>(-static_cast<long long>(index));
+            if (s->history.size() >= back_index) {
+                s->curr_input = s->history.at(s->history.size() - back_index);
                 is_index_valid = true;
             }
         }
@@ -358,6 +364,8 @@ bool Terminal::Impl::executeRunHistoryCmd(SessionContext *s, const Args &args)
             s->wp_conn->send(s->token, "Error: index out of range.\r\n");
     } catch (const invalid_argument &e) {
         s->wp_conn->send(s->token, "Error: parse index fail.\r\n");
+    } catch (const out_of_range &e) {
+        s->wp_conn->send(s->token, "Error: index out of range.\r\n");
     }
 
     return false;
